@@ -78,3 +78,25 @@ PROPS['C18'] = dict(
         [dict(target='stdlocks', family='stdlocks', mode='random', cases=300000, workers=14, timeout=3000),
          dict(target='stdlocks', family='stdlocks', mode='dfs', bound=2, workers=9, timeout=3000)]),
 )
+
+PROPS['C17'] = dict(
+    level='exploration',
+    assumptions=['the hook is installed in observe-only mode (choose=false): every decision is taken by the library PRNG '
+                 'exactly as upstream; only the id of each resumed fiber is recorded',
+                 'protocol: SetSeed + SetInjectorState(0) are the first statements of the main fiber in every compared '
+                 'run; ForwardToFaultRandomCount(n) advances BY n draws counted from that point',
+                 'CAS-fail frequency 1 (every weak CAS fails, retry loops cannot end) and frequency/sleep 0 (division by '
+                 'zero in the fault layer) are outside the generated domain'],
+    technique='rapidcheck-generated (program, seed, fault configuration) cases; metamorphic oracle: equal fiber traces, '
+              'random/injected deltas and results across rerun / fresh process / restored continuation',
+    level_text='Generated client programs (pool+strand, timed waits, coroutine mutex, lock/condvar, contended weak CAS) '
+               'run under generated seeds, fault frequencies, sleep times, CAS-fail frequencies, pick widths and tick '
+               'lengths; each case is executed twice in-process, or once more in a freshly exec\'ed process, or split '
+               'A;B and continued from the recorded (random count, injector state). Any difference in the trace of '
+               'resumed fibers, in the number of random draws / injected yields or in results is a violation.',
+    level_note='Observes fiber switches only at scheduler level (not every atomic); equality is checked via 64-bit '
+               'trace hashes plus lengths and counters.',
+    jobs=q(
+        [dict(target='repro', family='repro', mode='random', cases=12000, workers=14, timeout=600, flaky_is_violation=True)],
+        [dict(target='repro', family='repro', mode='random', cases=200000, workers=16, timeout=3000, flaky_is_violation=True)]),
+)
